@@ -24,7 +24,8 @@ EXPLANATION = (
     'layout: axis 0 only for (rows, units) kernels, the "all axes but the '
     'last when units > 1" idiom for reshaped lattice kernels, axes 1 and 3 of '
     'the (1, lattice, units, dims, terms) KFL layout; the trailing units '
-    'dimension is appended together with a 0 monotonicity / unimodality.')
+    'dimension is appended together with a 0 monotonicity / unimodality.'
+    ' The two CDF siblings agree on the sparsity reshape target and guard (Y1): a wrong middle dimension would be absorbed by the leading -1 and re-cut the batch axis.')
 ASSUMPTIONS = ['TF ops have their documented axis semantics and defaults',
                'kernel layouts are the documented ones: (K, U) for PWL / '
                'linear / categorical, lattice_sizes (+ [units]) after the '
